@@ -53,8 +53,9 @@ impl Dual {
         let cond = o.vm * inv.abs(); // >= 1: relative uncertainty of the divisor
         Dual::lin(
             self.v * inv,
-            self.vm * inv.abs() + self.v.abs() * o.vm * inv * inv,
-            &[(self, inv, inv.abs() * cond), (o, -self.v * inv * inv, self.vm * inv * inv * 2.0 * cond)],
+            // (ordered so that huge exponentials do not overflow in intermediate products)
+            self.vm * inv.abs() + (self.v.abs() * inv.abs()) * (o.vm * inv.abs()),
+            &[(self, inv, inv.abs() * cond), (o, -(self.v * inv) * inv, (self.vm * inv.abs()) * inv.abs() * 2.0 * cond)],
         )
     }
     pub fn neg(&self) -> Dual {
